@@ -29,7 +29,7 @@ class CsrEvMonWorld(World):
     )
 
     def runs(self, prop, tier):
-        return {"quick": 900, "thorough": 30000}[tier]
+        return {"quick": 3000, "thorough": 40000}[tier]
 
     def gen_config(self, rng, prop):
         dw = rng.choice([4, 8, 16, 32])
